@@ -27,9 +27,16 @@ func c01(c *core.Check) {
 	groupGuardRule(c, r8)
 	r9 := c.Rule("R9", "the running quote depth, which indexes the quotes list, never becomes negative: every store into quoteDepth[0] is clamped at 0, adds a positive constant, or subtracts under a test that the depth is large enough", 2)
 	counterCellRule(c, r9)
-	r10 := c.Rule("R10", "sizes taken from the document are bounded before they size an allocation: colspan and rowspan are read within the limits of the HTML specification (the table grid and the collapsed-border grid are allocated with them), and the pad length of a counter style is clamped before strings.Repeat", 6)
+	r10 := c.Rule("R10", "sizes taken from the document are bounded before they size an allocation: colspan and rowspan are read within the limits of the HTML specification (the table grid and the collapsed-border grid are allocated with them), and every strings.Repeat of css/counters and text (pad symbols, symbolic and additive repetitions, the spaces measured for tab-size) has its count clamped by, or tested against, a constant", 6)
 	spanBounds(c, r10)
 	padBoundRule(c, r10)
+	r11 := c.Rule("R11", "the last resort of counter rendering ends the recursion: the automatic range of a counter style, which is the range of decimal, is unbounded (its constant bounds are the smallest and the largest integer), so decimal never falls back to itself", 2)
+	autoRangeRule(c, r11)
+	c01Fanout(c)
+	r13 := c.Rule("R13", "the recursive descent of the CSS tokenizer is bounded: every recursive call of consumeValueList goes through a guard that tests a depth counter against a constant, increments it before the call and decrements it after", 5)
+	depthGuardRule(c, r13)
+	r14 := c.Rule("R14", "the depth of the SVG tree is bounded where the tree is built: the recursive builder of newSVGContext passes its depth parameter on incremented and recurses only below a constant depth (every other recursive function of the package walks the tree it returns)", 1)
+	depthParamRule(c, r14)
 
 	p := c.Prog
 	r4 := c.Rule("R4", "no nil dereference the code itself anticipates: every method call through ComputedStyle.parentStyle (nil on the root element) is dominated by a nil / root test; no comma-ok type assertion to a pointer or interface discards its ok result and then dereferences the value without a nil test (module-wide)", 6)
